@@ -42,6 +42,8 @@ type evT struct {
 	Txt    string   `json:"txt"`
 	Addrs  []string `json:"addrs"`
 	Remove bool     `json:"remove"`
+	Rep    int      `json:"rep"` // the address list repeats every address Rep times
+	Rev    bool     `json:"rev"` // the address list is in descending order
 }
 type opT struct {
 	Op     string `json:"op"`
@@ -61,11 +63,27 @@ type obsT struct {
 	Events    []evObs `json:"events"`
 	Processed []table `json:"processed"` // snapshots in the order the "hub" processed them
 	Final     table   `json:"final"`
+	FinalDup     bool `json:"finalDup"`
+	ProcessedDup bool `json:"processedDup"` // a report listed an address of a service twice
 	Diverg    string  `json:"diverg,omitempty"`
 }
 type evObs struct {
 	E     evT   `json:"e"`
 	Table table `json:"table"` // the manager's table right after the event
+	Dup   bool  `json:"dup"`   // that table lists an address of a service twice
+}
+
+func hasDup(m map[string]*api.MdnsEntry) bool {
+	for _, e := range m {
+		seen := map[string]bool{}
+		for _, a := range e.Addresses {
+			if seen[a.String()] {
+				return true
+			}
+			seen[a.String()] = true
+		}
+	}
+	return false
 }
 
 func elements(s, class string, pick int) map[string]string {
@@ -127,6 +145,7 @@ type hubStandIn struct {
 	inFlight  int
 	delays    []time.Duration
 	processed []table
+	dup       bool
 }
 
 func (h *hubStandIn) ReportMdnsEntries(entries map[string]*api.MdnsEntry, newEntries bool) {
@@ -142,6 +161,7 @@ func (h *hubStandIn) ReportMdnsEntries(entries map[string]*api.MdnsEntry, newEnt
 	time.Sleep(d)
 	h.mu.Lock()
 	h.processed = append(h.processed, toTable(entries))
+	h.dup = h.dup || hasDup(entries)
 	h.inFlight--
 	h.mu.Unlock()
 }
@@ -174,8 +194,13 @@ func runScript(s *scriptT, seed int) obsT {
 		}
 		e := op.E
 		var ips []net.IP
-		for _, a := range e.Addrs {
-			ips = append(ips, ipOf[a])
+		for rep := 0; rep < max(e.Rep, 1); rep++ {
+			for k := range e.Addrs {
+				if e.Rev {
+					k = len(e.Addrs) - 1 - k
+				}
+				ips = append(ips, ipOf[e.Addrs[k]])
+			}
 		}
 		port := 4712
 		if e.Remove {
@@ -186,7 +211,8 @@ func runScript(s *scriptT, seed int) obsT {
 		if e.Addrs == nil {
 			e.Addrs = []string{}
 		}
-		o.Events = append(o.Events, evObs{E: e, Table: toTable(m.VerifEntries())})
+		now := m.VerifEntries()
+		o.Events = append(o.Events, evObs{E: e, Table: toTable(now), Dup: hasDup(now)})
 		if op.Report {
 			// let the report goroutine arrive (it may be held back by the library if reports are serialised)
 			for t := 0; t < 20 && hubS.arrivalsNow() == before; t++ {
@@ -208,96 +234,158 @@ func runScript(s *scriptT, seed int) obsT {
 	time.Sleep(30 * time.Millisecond)
 	hubS.mu.Lock()
 	o.Processed = append([]table{}, hubS.processed...)
+	o.ProcessedDup = hubS.dup
 	hubS.mu.Unlock()
-	o.Final = toTable(m.VerifEntries())
+	fin := m.VerifEntries()
+	o.Final = toTable(fin)
+	o.FinalDup = hasDup(fin)
 	return o
 }
 
 func (h *hubStandIn) arrivalsNow() int { h.mu.Lock(); defer h.mu.Unlock(); return h.arrivals }
 
-// fuzzResolver feeds the manager's resolver callback with awkward inputs (C08): nil and empty TXT maps, missing / empty /
-// oversized / binary values, nil and odd address lists, odd ports, removes of unknown services. Every call runs under
-// recover and a deadline; the result is the list of inputs that made the library panic or hang.
-func fuzzResolver(seed, rounds int) []string {
-	var bad []string
-	m := mdns.NewMDNS(ownSki, "brand", "model", "type", "serial", []api.DeviceCategoryType{1}, "shipid", "service", 4711, nil, mdns.MdnsProviderSelectionAll)
-	hubS := &hubStandIn{}
-	if err := m.VerifStartWithProvider(hubS, &provider{}); err != nil {
-		return []string{"start: " + err.Error()}
+// ---------------------------------------------------------------- C08: awkward resolver inputs (table from MdnsBadGen.tla)
+
+type badRow struct {
+	ID     int    `json:"id"`
+	Elems  string `json:"elems"` // nil | empty | map
+	K1     string `json:"k1"`
+	V1     int    `json:"v1"` // 0 = key absent, else index into badVals
+	K2     string `json:"k2"`
+	V2     int    `json:"v2"`
+	Addr   int    `json:"addr"`
+	Port   int    `json:"port"`
+	Name   int    `json:"name"`
+	Remove bool   `json:"remove"`
+}
+
+type badObs struct {
+	ID        int    `json:"id"`
+	Row       badRow `json:"row"`
+	Outcome   string `json:"outcome"`   // ok | panic | hang
+	GoodAfter bool   `json:"goodAfter"` // the valid record of another service delivered afterwards is in the table
+	QueryOk   bool   `json:"queryOk"`   // RequestMdnsEntries and the table read return
+	Detail    string `json:"detail,omitempty"`
+}
+
+var badVals = []string{"", "1", "2", "true", "false", "TRUE", "x", "/ship/", skiOf["s1"], ownSki, string([]byte{0xff, 0xfe}), "a=b",
+	strings.Repeat("z", 70000), "1,2,x,,-1,99999999999999999999", " ", "\x00"}
+var badAddrs = [][]net.IP{{net.ParseIP("192.168.1.10")}, nil, {}, {nil}, {net.IP{}}, {net.ParseIP("0.0.0.0")}, {net.ParseIP("fe80::1")}, {net.IP{1, 2, 3}},
+	{net.ParseIP("192.168.1.10"), net.ParseIP("192.168.1.10")}, {net.ParseIP("2001:db8::1"), nil, net.ParseIP("10.0.0.7")}}
+var badPorts = []int{4712, -1, 0, 65535, 65536, 1 << 30}
+var badNames = []string{"n", "", strings.Repeat("n", 300)}
+
+func pick[T any](xs []T, i int) T { return xs[(i-1+len(xs))%len(xs)] }
+
+// runBad feeds every row of the table to the resolver callback of a real manager (a fresh one every 400 rows, so that
+// rows also meet the table state earlier rows left behind). Every call runs under recover and a deadline.
+func runBad(rows []badRow, out *vh.Writer) (bad int) {
+	var m *mdns.MdnsManager
+	var cb api.MdnsResolveCB
+	fresh := func() bool {
+		m = mdns.NewMDNS(ownSki, "brand", "model", "type", "serial", []api.DeviceCategoryType{1}, "shipid", "service", 4711, nil, mdns.MdnsProviderSelectionAll)
+		if err := m.VerifStartWithProvider(&hubStandIn{}, &provider{}); err != nil {
+			return false
+		}
+		cb = m.VerifResolveCB()
+		return true
 	}
-	cb := m.VerifResolveCB()
-	vals := []string{"", "1", "2", "true", "false", "TRUE", "x", "/ship/", skiOf["s1"], ownSki, string([]byte{0xff, 0xfe}), "a=b", strings.Repeat("z", 70000), "1,2,x,,-1,99999999999999999999", " ", "\x00"}
-	keys := []string{"txtvers", "id", "path", "ski", "register", "brand", "model", "type", "serial", "cat", "", "unknown"}
-	addrSets := [][]net.IP{nil, {}, {nil}, {net.IP{}}, {net.ParseIP("0.0.0.0")}, {net.ParseIP("fe80::1")}, {net.ParseIP("::")}, {net.IP{1, 2, 3}},
-		{net.ParseIP("192.168.1.10"), net.ParseIP("192.168.1.10")}, {net.ParseIP("2001:db8::1"), nil, net.ParseIP("10.0.0.7")}}
-	ports := []int{-1, 0, 1, 65535, 65536, 1 << 30}
-	x := uint32(seed*2654435761 + 12345)
-	next := func(n int) int { x = x*1664525 + 1013904223; return int(x>>8) % n }
-	for r := 0; r < rounds; r++ {
+	for i, r := range rows {
+		if i%400 == 0 && !fresh() {
+			fmt.Fprintln(os.Stderr, "manager does not start")
+			os.Exit(2)
+		}
 		var el map[string]string
-		switch next(6) {
-		case 0:
-			el = nil
-		case 1:
+		switch r.Elems {
+		case "nil":
+		case "empty":
 			el = map[string]string{}
 		default:
-			el = map[string]string{"txtvers": "1", "id": "id", "path": "/ship/", "ski": skiOf["s1"], "register": "true"}
-			for k := 0; k < next(5); k++ {
-				key := keys[next(len(keys))]
-				if next(4) == 0 {
-					delete(el, key)
+			el = map[string]string{"txtvers": "1", "id": "id", "path": "/ship/", "ski": skiOf["s1"], "register": "true", "brand": "b", "model": "m", "type": "t"}
+			for _, kv := range []struct {
+				k string
+				v int
+			}{{r.K1, r.V1}, {r.K2, r.V2}} {
+				if kv.k == "-" {
+					continue
+				}
+				if kv.v == 0 {
+					delete(el, kv.k)
 				} else {
-					el[key] = vals[next(len(vals))]
+					el[kv.k] = pick(badVals, kv.v)
 				}
 			}
 		}
-		addrs := addrSets[next(len(addrSets))]
-		port := ports[next(len(ports))]
-		remove := next(3) == 0
-		name := []string{"", "n", strings.Repeat("n", 300)}[next(3)]
-		desc := fmt.Sprintf("elements=%q name=%q addrs=%v port=%d remove=%v", el, name, addrs, port, remove)
-		cr := vh.Call(3*time.Second, func() { cb(el, name, "host", addrs, port, remove) })
-		if cr.Panicked {
-			bad = append(bad, "panic: "+desc)
-		} else if cr.Hung {
-			bad = append(bad, "hang: "+desc)
-			break
+		o := badObs{ID: r.ID, Row: r, Outcome: "ok"}
+		cr := vh.Call(3*time.Second, func() { cb(el, pick(badNames, r.Name), "host", pick(badAddrs, r.Addr), pick(badPorts, r.Port), r.Remove) })
+		switch {
+		case cr.Panicked:
+			o.Outcome, o.Detail = "panic", firstLine(cr.PanicMsg)
+		case cr.Hung:
+			o.Outcome = "hang"
 		}
-		if next(10) == 0 {
-			cr := vh.Call(3*time.Second, func() { m.RequestMdnsEntries(); _ = m.VerifEntries() })
-			if cr.Panicked || cr.Hung {
-				bad = append(bad, "panic/hang in RequestMdnsEntries after: "+desc)
-			}
+		if o.Outcome == "ok" {
+			// at most that record is ignored: the valid record of another service is still taken up, the table can be read
+			good := map[string]string{"txtvers": "1", "id": "id-s2", "path": "/ship/", "ski": skiOf["s2"], "register": "false"}
+			c2 := vh.Call(3*time.Second, func() {
+				cb(good, "name-s2", "host-s2", []net.IP{net.ParseIP("10.0.0.7")}, 4712, false)
+				_, o.GoodAfter = m.VerifEntries()[skiOf["s2"]]
+				cb(good, "name-s2", "host-s2", nil, -1, true)
+			})
+			c3 := vh.Call(3*time.Second, func() { m.RequestMdnsEntries(); _ = m.VerifEntries() })
+			o.GoodAfter = o.GoodAfter && !c2.Panicked && !c2.Hung
+			o.QueryOk = !c3.Panicked && !c3.Hung
+		}
+		if o.Outcome != "ok" || !o.GoodAfter || !o.QueryOk {
+			bad++
+		}
+		out.Write(o)
+		if o.Outcome == "hang" && !fresh() {
+			os.Exit(2)
 		}
 	}
-	// TXT parser on raw records
+	// the TXT parser on raw records (zeroconf route)
 	for _, txt := range [][]string{nil, {}, {""}, {"="}, {"=="}, {"a"}, {"=b"}, {"a="}, {string([]byte{0xff}) + "=" + string([]byte{0x00})}, {strings.Repeat("k", 70000) + "=v"}} {
 		t := txt
 		cr := vh.Call(3*time.Second, func() { _ = mdns.VerifParseTxt(t) })
 		if cr.Panicked || cr.Hung {
-			bad = append(bad, fmt.Sprintf("panic/hang in parseTxt(%q)", t))
+			bad++
+			out.Write(badObs{ID: -1, Outcome: map[bool]string{true: "panic", false: "hang"}[cr.Panicked], Detail: fmt.Sprintf("parseTxt(%q)", t)})
 		}
 	}
 	return bad
 }
 
 func main() {
-	fuzz := flag.Int("fuzz", 0, "C08: number of awkward resolver inputs to feed instead of running scripts")
-	fuzzOut := flag.String("fuzzout", "", "C08: json file for the inputs that made the library panic or hang")
+	badIn := flag.String("bad", "", "C08: ndjson table of awkward resolver inputs (MdnsBadGen.tla) to feed instead of running scripts")
 	in := flag.String("scripts", "", "ndjson scripts")
 	obs := flag.String("obs", "", "ndjson observations")
 	sum := flag.String("summary", "", "summary json")
 	par := flag.Int("par", 256, "scripts in flight")
 	flag.Parse()
 	seed := vh.EnvInt("VERIF_SEED", 1)
-	if *fuzz > 0 {
-		bad := fuzzResolver(seed, *fuzz)
-		if bad == nil {
-			bad = []string{}
+	if *badIn != "" {
+		var rows []badRow
+		if err := vh.ReadLines(*badIn, func(b []byte) error {
+			var r badRow
+			if err := json.Unmarshal(b, &r); err != nil {
+				return err
+			}
+			rows = append(rows, r)
+			return nil
+		}); err != nil || len(rows) == 0 {
+			fmt.Fprintln(os.Stderr, "no rows:", err)
+			os.Exit(2)
 		}
-		b, _ := json.Marshal(map[string]interface{}{"inputs": *fuzz, "bad": bad})
-		_ = os.WriteFile(*fuzzOut, b, 0o644)
-		fmt.Printf("mdnsmgr: %d awkward resolver inputs, %d made the library panic or hang\n", *fuzz, len(bad))
+		out, err := vh.NewWriter(*obs)
+		if err != nil {
+			fmt.Fprintln(os.Stderr, err)
+			os.Exit(2)
+		}
+		t0 := time.Now()
+		bad := runBad(rows, out)
+		out.Close()
+		fmt.Printf("mdnsmgr: %d awkward resolver inputs, %d with a bad outcome, %.1fs\n", len(rows), bad, time.Since(t0).Seconds())
 		return
 	}
 	var scripts []*scriptT
@@ -323,4 +411,11 @@ func main() {
 	b, _ := json.MarshalIndent(map[string]interface{}{"scripts": len(scripts), "wall_s": time.Since(t0).Seconds()}, "", " ")
 	_ = os.WriteFile(*sum, b, 0o644)
 	fmt.Printf("mdnsmgr: %d scripts, %.1fs\n", len(scripts), time.Since(t0).Seconds())
+}
+
+func firstLine(s string) string {
+	if i := strings.IndexByte(s, '\n'); i >= 0 {
+		return s[:i]
+	}
+	return s
 }
